@@ -220,7 +220,7 @@ const std::vector<Case>& cases(bool th) {
   size_t nr = rollyaw(th).size();
   for (int t = 0; t < 2; ++t) for (size_t i = 0; i < nr; ++i) v.push_back({0, t, (int)i});
   for (int t = 0; t < 2; ++t) { v.push_back({1, t, 0}); v.push_back({2, t, 0}); v.push_back({4, t, 0}); }
-  v.push_back({3, 0, th ? 5 : 4});
+  v.push_back({3, 0, th ? 7 : 4});
   return v;
 }
 
@@ -246,7 +246,7 @@ std::string vf_describe(const std::string& tier) {
   o.vec("roll_yaw", rollyaw(th)).vec("pitch", pitches(th));
   o.str("normaliser_inputs", "k*pi/2 +- {0, 1 ulp, 1e-12, 1e-5}, k=-7..7; lattice of 2000 (thorough 20000) in (-4pi,4pi); +-12.56; nextafter(+-4pi)");
   o.str("matrices", "axis-angle lattice 8 axes x 13 (thorough 72) angles, |R(2,0)|<=1-1e-6");
-  o.str("smart_rotation_sequences", th ? "all init() sequences of depth 5 over 8 angle triples" : "all init() sequences of depth 4 over 8 angle triples");
+  o.str("smart_rotation_sequences", th ? "all init() sequences of depth 7 over 8 angle triples" : "all init() sequences of depth 4 over 8 angle triples");
   o.str("coordinates", "r in {1e-6,1e-3,1,1e3,1e6} x 24 (thorough 96) azimuths incl. -pi and multiples of pi/2 x elevations k*pi/12, 1e-3, 1e-6, pi-1e-3, pi-1e-6; tolerance 8 eps (1 + 1/max(theta, sqrt(eps))) relative to the norm, theta = angular distance to the nearest pole (acos-based elevation)");
   o.str("angle_tolerance", "double: min(1e-9, 1e-12 + 4e-15/cos(pitch)); float: 2e-5 + 2e-6/cos(pitch)");
   return o.done();
